@@ -55,7 +55,8 @@ func gen(rng *rand.Rand, tier core.Tier, emit core.Emit) {
 	if tier == core.Thorough {
 		n = 3000
 	}
-	durs := []int64{1 * sec, 10 * sec, 60 * sec, 180 * sec, 600 * sec, 3600 * sec, 7200 * sec}
+	// the last two: about 2.5 s and 90.5 s — not whole seconds; multiples of 2^20 ns so that halves and quarters stay exact in float64 scores
+	durs := []int64{1 * sec, 10 * sec, 60 * sec, 180 * sec, 600 * sec, 3600 * sec, 7200 * sec, 2384 << 20, 86309 << 20}
 	// the real cleaner component over several passes of ONE instance: retention shorter / equal / longer than the interval,
 	// servers and instances written at various ages, a pass whose scan hits a storage error followed by healthy ones
 	nc := 12
